@@ -7,7 +7,7 @@ CONSTANTS
   AliasMenu <- AlSome
   LimitMenu <- Lim01
   LookupExtra <- Missing
-  DupLast = TRUE
+  DupAt = 99
   Hist = TRUE
 INVARIANTS DumpHist RWExcl Linearizable LookupLinearizable ExtensionsInFront ExtensionWins NonInterference LookupFindsExtensions PathSound
 CHECK_DEADLOCK FALSE
